@@ -161,7 +161,10 @@ def run_reference(case, mp=False, smooth=False, perturb=0.0):
             raise common.Inconclusive("mle scale (numerically) zero")
     ref = dict(spec=spec, f=f, grid=grid)
     if smooth:
-        ms, Ps, G = K.rts(spec, f)
+        try:
+            ms, Ps, G = K.rts(spec, f)
+        except (np.linalg.LinAlgError, ZeroDivisionError) as e:
+            raise common.Inconclusive("textbook smoother undefined (singular predicted covariance)") from e
     else:
         ms, Ps, G = f["m"], f["P"], None
     scale = f["mle_scale"] if spec.calib == "mle" else None
@@ -250,7 +253,7 @@ def cov_error_blocks(P, P_ref, Pp_ref, n, d, eps=1e-5):
     return E.reshape(n, d, n, d).max(axis=(1, 3))
 
 
-def compare_marginals(res, tag, case, lib_mean, lib_cov, ref, pert, idx=None):
+def compare_marginals(res, tag, case, lib_mean, lib_cov, ref, pert, idx=None, expected=None, lib_idx=None):
     """Blockwise comparison of library marginals with the reference at all (or selected) output
     indices.  Tolerance per block = max(TOL0, FACTOR * attainable), attainable = distance between
     the reference and its perturbed twin; blocks beyond float64's reach (tol > SKIP) are skipped
@@ -263,9 +266,17 @@ def compare_marginals(res, tag, case, lib_mean, lib_cov, ref, pert, idx=None):
     am = np.zeros(n)
     ec = np.zeros((n, n))
     ac = np.zeros((n, n))
-    for i in idx:
-        em = np.maximum(em, mean_error_blocks(lib_mean[i], ref["mean"][i], ref["cov"][i], ref["pcov"][i], n, d))
-        ec = np.maximum(ec, cov_error_blocks(lib_cov[i], ref["cov"][i], ref["pcov"][i], n, d))
+    for pos, i in enumerate(idx):
+        li = i if lib_idx is None else lib_idx[pos]
+        exp_m = ref["mean"][i] if expected is None else expected[0][pos]
+        exp_c = ref["cov"][i] if expected is None else expected[1][pos]
+        em = np.maximum(em, mean_error_blocks(lib_mean[li], exp_m, ref["cov"][i], ref["pcov"][i], n, d))
+        # (scales always come from the reference; `expected` only replaces the target values)
+        dd = np.sqrt(np.clip(np.diag(ref["cov"][i]), 0, None))
+        dp = np.sqrt(np.clip(np.diag(ref["pcov"][i]), 0, None))
+        sc = np.maximum(np.outer(dd, dd) + 1e-5 * np.outer(dp, dp), 1e-300)
+        Ecov = np.where(np.isfinite(lib_cov[li]), np.abs(lib_cov[li] - exp_c) / sc, np.inf)
+        ec = np.maximum(ec, Ecov.reshape(n, d, n, d).max(axis=(1, 3)))
         if pert is None:
             am[:], ac[:] = np.inf, np.inf
         else:
@@ -300,3 +311,147 @@ def perturbed_reference(case, smooth=False):
         return run_reference(case, mp=True, smooth=smooth, perturb=PERTURB)
     except common.Inconclusive:
         return None
+
+
+# ------------------------------------------------------------------------------------
+# adaptive runs: library side + reference on the recorded step sequence (oracle R3)
+
+
+@st.composite
+def adaptive_values(draw, cfg):
+    field = sk.make_field(cfg)
+    n, d = cfg["n"], cfg["d"]
+    C = draw(gen.mat(d, field.M, gen.quarter(-4, 4)))
+    tc = draw(gen.mat(n, d, gen.quarter(-6, 6)))
+    t0 = draw(gen.quarter(-4, 4))
+    T = draw(st.floats(0.3, 2.0))
+    lo_tol = -7.0 if n >= 4 else -5.0
+    rtol = draw(gen.log10_uniform(lo_tol, -2.0))
+    atol_factor = draw(st.sampled_from([0.1, 1.0, 10.0]))
+    dt0 = draw(gen.log10_uniform(-3.0, 0.3))
+    eps = draw(st.sampled_from([1e-8, 1e-12]))
+    damp = draw(st.sampled_from([0.0, 0.0, 1e-3]))
+    base_exp = draw(gen.vec(d if cfg["fact"] != "isotropic" else 1, gen.exponent(-1.0, 1.0)))
+    use_base = draw(st.booleans())
+    return dict(cfg=cfg, C=C, tc=tc, tc_mode="consistent", incs=[T], t0=t0, damp=damp, rtol=rtol, atol=rtol * atol_factor,
+                dt0=dt0, eps=eps, base=[10.0**e for e in base_exp] if use_base else None)
+
+
+def adaptive_args(case):
+    import jax.numpy as jnp
+
+    cfg = case["cfg"]
+    field, C, tc, grid, base_vec = case_arrays(case)
+    std = sk.init_std_vector(cfg)
+    base_arg = None
+    if case.get("base") is not None:
+        base_arg = jnp.asarray(base_vec[0] if cfg["fact"] == "isotropic" else base_vec)
+    return dict(C=jnp.asarray(C), tc=jnp.asarray(tc), t0=float(grid[0]), t1=float(grid[-1]), base=base_arg, std=jnp.asarray(std))
+
+
+def run_save_at(case, save_at, cfg_extra=None):
+    """Library: solve_adaptive_save_at on `save_at` (array). Returns (outputs, events)."""
+    import jax.numpy as jnp
+
+    cfg = {**case["cfg"], **(cfg_extra or {})}
+    a = adaptive_args(case)
+    cfg = {**cfg, "num_save": len(save_at), "has_base": a["base"] is not None}
+    with common.lib_call("solve_adaptive_save_at"):
+        fn = sk.adaptive_save_at_runner(cfg)
+        out, ev = fn(a["C"], a["tc"], jnp.asarray(save_at), float(case["atol"]), float(case["rtol"]), float(case["dt0"]),
+                     float(case["eps"]), float(case["damp"]), a["base"], a["std"])
+    return out, ev
+
+
+def trace_nodes(events, t0):
+    """Merge the recorded accepted steps with the interpolation events into reference nodes.
+    Returns (ts, kinds, report_index) where report_index[k] = node index of the k-th reported
+    checkpoint (k >= 1; index 0 is the initial time)."""
+    ts, kinds, report = [float(t0)], ["init"], [0]
+    for e in events:
+        if e[0] == "error" and e[3] >= 1.0:
+            ts.append(e[1] + e[2])
+            kinds.append("step")
+        elif e[0] == "interp":
+            t = float(e[1])
+            # strictly inside the last accepted step: insert before that step node
+            pos = len(ts) - 1
+            ts.insert(pos, t)
+            kinds.insert(pos, "ckpt")
+            report.append(pos)
+        elif e[0] == "interp_at":
+            report.append(len(ts) - 1)
+    # indices of report entries shift when later checkpoints are inserted before a step node:
+    # recompute by matching in order
+    return ts, kinds, report
+
+
+def reference_on_trace(case, events, smooth=False, perturb=0.0, mp=True):
+    """Reference filter/smoother on the recorded step sequence merged with the checkpoints."""
+    cfg = case["cfg"]
+    field, C, tc, grid, base_vec = case_arrays(case)
+    spec = make_spec(case, mp=mp)
+    std = sk.init_std_vector(cfg)
+    P0 = np.diag(np.repeat(std, cfg["d"]) ** 2)
+    # rebuild nodes with stable report indices
+    ts, kinds = [float(grid[0])], ["init"]
+    report_t = [float(grid[0])]
+    report_kind = ["init"]
+    for e in events:
+        if e[0] == "error" and e[3] >= 1.0:
+            ts.append(e[1] + e[2]), kinds.append("step")
+        elif e[0] == "interp":
+            pos = len(ts) - 1
+            ts.insert(pos, float(e[1])), kinds.insert(pos, "ckpt")
+            report_t.append(float(e[1])), report_kind.append("ckpt")
+        elif e[0] == "interp_at":
+            report_t.append(ts[-1]), report_kind.append("at")
+    if any(ts[i + 1] <= ts[i] for i in range(len(ts) - 1)):
+        raise common.Inconclusive("recorded nodes are not strictly increasing (checkpoints closer than float spacing)")
+    try:
+        f = K.ekf(spec, ts, tc.reshape(-1), P0, nodes=kinds, perturb=perturb)
+    except (np.linalg.LinAlgError, ZeroDivisionError) as e:
+        raise common.Inconclusive("textbook update undefined (singular innovation covariance)") from e
+    N = spec.N
+    if spec.calib == "dynamic":
+        for s in f["scale"][1:]:
+            sv = np.atleast_1d(N.to_float(s))
+            if np.any(sv < 1e-9) or not np.all(np.isfinite(sv)):
+                raise common.Inconclusive("dynamic scale (numerically) zero: textbook update undefined (F8 class)")
+    if spec.calib == "mle":
+        sv = np.atleast_1d(N.to_float(f["mle_scale"]))
+        if np.any(sv < 1e-12) or not np.all(np.isfinite(sv)):
+            raise common.Inconclusive("mle scale (numerically) zero")
+    if smooth:
+        try:
+            ms, Ps, G = K.rts(spec, f)
+        except (np.linalg.LinAlgError, ZeroDivisionError) as e:
+            raise common.Inconclusive("textbook smoother undefined (singular predicted covariance)") from e
+    else:
+        ms, Ps, G = f["m"], f["P"], None
+    scale = f["mle_scale"] if spec.calib == "mle" else None
+    # node index of every reported entry
+    idx = []
+    for t, kind in zip(report_t, report_kind):
+        cands = [i for i, (tt, kk) in enumerate(zip(ts, kinds)) if tt == t and (kk == "ckpt") == (kind == "ckpt")]
+        idx.append(cands[-1] if cands else ts.index(t))
+    means, covs, pcovs, scales, nsteps = [], [], [], [], []
+    for i in idx:
+        Pi = K.calibrate_cov(spec, Ps[i], scale) if scale is not None else Ps[i]
+        Ppi = f["Pp"][max(i, 1)]
+        Ppi = K.calibrate_cov(spec, Ppi, scale) if scale is not None else Ppi
+        means.append(N.to_float(ms[i])), covs.append(N.to_float(Pi)), pcovs.append(N.to_float(Ppi))
+        # number of accepted steps up to and including the step that contains / ends at this node
+        j = i
+        while kinds[j] == "ckpt":
+            j += 1
+        nsteps.append(sum(1 for k in kinds[: j + 1] if k == "step"))
+        if spec.calib == "mle":
+            scales.append(np.asarray(N.to_float(f["mle_scale"])))
+        elif spec.calib == "dynamic":
+            scales.append(np.asarray(N.to_float(f["scale"][j])))
+        else:
+            scales.append(np.ones((cfg["d"],) if cfg["fact"] == "blockdiag" else ()))
+    return dict(grid=np.asarray(report_t), mean=np.asarray(means), cov=np.asarray(covs), pcov=np.asarray(pcovs),
+                scale=np.asarray(scales), num_steps=np.asarray(nsteps), ts=ts, kinds=kinds, f=f, spec=spec, idx=idx,
+                all_mean=[N.to_float(m) for m in ms], all_cov=[N.to_float(K.calibrate_cov(spec, P, scale) if scale is not None else P) for P in Ps])
